@@ -97,7 +97,7 @@ Definition split (j : jordan) (indexs : list nat) (nodes : list Q) : res jordan 
 Inductive unite_res := UYes (s : seg) | UNo | URaise (k : ekind).
 (* PlanarCurve.__or__ followed by the caller's re-pointing of the end points *)
 Definition unite (a b : seg) : unite_res :=
-  if negb (Nat.eqb (degree a) (degree b)) then URaise EAssert
+  if negb (Nat.eqb (degree a) (degree b)) then UNo      (* ValueError: cannot unite *)
   else if negb (pt_eq (last_pt a) (first_pt b)) then URaise EAssert
   else
     let dapt := psub (last_pt a) (last_pt (removelast a)) in
@@ -217,7 +217,7 @@ Definition jordan_eq (self other : jordan) : res bool :=
           match index_where (fun s0 => seg_eq s0 seg1) sc with
           | None => Ok false
           | Some index =>
-              let nsegments := length self in       (* uncleaned count, as in the code *)
+              let nsegments := length sc in         (* segment count of the cleaned copy *)
               let fix go (i : nat) (l : list seg) : res bool :=
                 match l with
                 | [] => Ok true
